@@ -33,13 +33,13 @@ PROPS = {
                   'reported_height_exact_no_rewind', 'reported_height_exact_refuted', 'deviation_shape',
                   'trace_checker_sound', 'model_trace_accepted_partial'],
         classify=_c09_classes,
-        shard=150, workers=8,
+        shard=24, workers=16,
         rule='directed: for each of the 5 descriptions, every first height in {none,0,1,7,max-1,max} x every second change '
              'set in {no height, same, +1, +2, -1, 0, max, two heights, same height twice} x tails {nothing, reopen, '
              'rollback+reopen, rollback / recommit with a removal row / rollback twice / height-less commit}, in memory '
-             '(thorough: also both RocksDB policies; quick: RewindFullRange for on-chain and relayer); plus random '
+             '(thorough: also both RocksDB policies; quick: RewindFullRange rollback tails for on-chain and relayer); plus random '
              'histories of 2..14 (thorough 3..30) ops: linked, repeated, skipped, stale, far, 0/1/2 rows, removal rows, '
-             'metadata-key poison (backend refusal), rollbacks, reopens, heights at the u32/u64 maximum; 30% of the '
+             'metadata-key poison (backend refusal), rollbacks, reopens, heights at the u32/u64 maximum; 15% (thorough 30%) of the '
              'random histories on RocksDB temp dirs under /verif/target/tmp (deleted per case). observation = result '
              'variant tag + HistoricalView::latest_height + latest_height_from_metadata after every op. non-trivial = '
              'distinct history with a non-panic trace',
